@@ -67,6 +67,14 @@ Inductive pname : Type := PX | PY | PZ | PMu | PEps.
 Definition is_property (p : pname) : bool :=
   match p with PX | PY | PZ => true | _ => false end.
 
+(* What a setter of Model does, in SOURCE ORDER (Gen/MapsSetter.v is this list per
+   parameter, re-extracted from emg3d/models.py on every run):
+     EvGuardNone   `if <stored> is None: raise ValueError(...)`
+     EvCheckValues `self._check_positive_finite(<assigned values>, name)`
+     EvCheckStored `self._check_positive_finite(<stored array>, name)`
+     EvStore       `<stored>[:] = np.asfortranarray(<assigned values>, dtype=np.float64)` *)
+Inductive setter_event : Type := EvGuardNone | EvCheckValues | EvCheckStored | EvStore.
+
 Section Validation.
   Context {F : Type}.
   (* decisions on the number type and the finite part of map.backward *)
@@ -197,6 +205,39 @@ Section Validation.
     | None => (md, Some ErrType)
     | Some _ => (set_prop md p (Some values),
                  check_pf (m_map md) (Some (get_prop md p)) p values)
+    end.
+
+  (* a setter as the sequence of its events: the first event that raises ends the
+     call with that error and the model AS IT IS AT THAT MOMENT (nothing is rolled
+     back); `None[:] = ...` is a TypeError *)
+  Fixpoint run_setter (evs : list setter_event) (md : model) (p : pname)
+           (values : list (xval F)) : model * option verr :=
+    match evs with
+    | [] => (md, None)
+    | EvGuardNone :: rest =>
+        match get_prop md p with
+        | None => (md, Some ErrNone)
+        | Some _ => run_setter rest md p values
+        end
+    | EvCheckValues :: rest =>
+        match check_pf (m_map md) (Some (get_prop md p)) p values with
+        | Some e => (md, Some e)
+        | None => run_setter rest md p values
+        end
+    | EvCheckStored :: rest =>
+        match get_prop md p with
+        | None => (md, Some ErrNone)
+        | Some st =>
+            match check_pf (m_map md) (Some (Some st)) p st with
+            | Some e => (md, Some e)
+            | None => run_setter rest md p values
+            end
+        end
+    | EvStore :: rest =>
+        match get_prop md p with
+        | None => (md, Some ErrType)
+        | Some _ => run_setter rest (set_prop md p (Some values)) p values
+        end
     end.
 
   (* anisotropy case: 0 isotropic, 1 HTI, 2 VTI, 3 triaxial *)
